@@ -211,8 +211,17 @@ class Environment:
         # If event has an exception, run its callback before handle the
         # exception. In this way, the exception could be possibly be handled by
         # event's callback.
+        stop = None
         for callback in callbacks:
-            callback(event)
+            try:
+                callback(event)
+            except StopSimulation as exc:
+                # run(until=event) stops here, but only after every waiter
+                # registered on the event (also after run() was called) has
+                # been resumed: none of them may be lost by the stop.
+                stop = exc
+        if stop is not None:
+            raise stop
 
         if not event._ok and not hasattr(event, '_defused'):
             # The event has failed and has not been defused. Crash the
